@@ -6,15 +6,17 @@
    FixDone = TRUE models the code after ced599f (done flag reset by setup), FixDrain = TRUE the code after
    9fee3ec (output pipe drained while the command runs); with FALSE the model shows the old defects
    (F-12a: last attempt's buffered bytes never flushed; F-11b: child blocked on the full pipe).
-   `raced` records that the deferred teardown of a failed attempt's goroutine ran after the relaunched
-   attempt had installed its files (F-12b, still open): the log guarantee is proved for behaviours
-   without that race, and the race itself is exported as a lead.                                      *)
+   FixHandover = TRUE models the code after the F-12b fix: a failed attempt that is retried closes its own files
+   BEFORE it gives the node back to the loop (status -> none), and its goroutine's later explicit / deferred
+   teardown is skipped.  With FALSE the old goroutine's deferred teardown (`tailPending`) may run after the
+   relaunched attempt installed its files; `raced` records that (F-12b): C12_Log fails there.            *)
 EXTENDS Integers, Sequences, FiniteSets, TLC
 
 CONSTANTS B, P, Sizes, MaxAttempts,
           CfgStdout, CfgOutput,      \* step configuration: `stdout:` file? `output:` variable?
           FixDone,                   \* model the candidate fix "reset done in setup"
-          FixDrain                   \* model the candidate fix "drain the pipe concurrently"
+          FixDrain,                  \* model the candidate fix "drain the pipe concurrently"
+          FixHandover                \* teardown before the retry hand-over, none afterwards
 
 VARIABLES pc,        \* worker of the current attempt: setup | wire | emit | wait | drain | after | teardown | gone
           attempt,   \* 1..MaxAttempts
@@ -80,8 +82,11 @@ DoTeardown(g) == IF doneFlag THEN UNCHANGED <<buffered, onDisk, closedGen, doneF
 \* failed attempt with retries left: the goroutine returns (its teardown is deferred = tail), status -> None,
 \* the loop relaunches a new goroutine which runs setup
 Retry == /\ pc = "retry"
-         /\ tailPending' = TRUE /\ attempt' = attempt + 1 /\ pc' = "setup"
-         /\ UNCHANGED <<gen, buffered, onDisk, closedGen, doneFlag, toEmit, emitted, pipeFill, lost, raced>>
+         /\ attempt' = attempt + 1 /\ pc' = "setup"
+         /\ IF FixHandover
+              THEN /\ DoTeardown(gen) /\ UNCHANGED tailPending       \* scheduler.go retry branch: teardown, handedOver, status -> none
+              ELSE /\ tailPending' = TRUE /\ UNCHANGED <<buffered, onDisk, closedGen, doneFlag>>
+         /\ UNCHANGED <<gen, toEmit, emitted, pipeFill, lost, raced>>
 
 OldTail == /\ tailPending                                  \* runs whenever the old goroutine gets scheduled
            /\ tailPending' = FALSE
@@ -101,6 +106,7 @@ Spec == Init /\ [][Next]_vars /\ WF_vars(Next)
 C12_Log == pc = "gone" => onDisk[attempt] = emitted[attempt]
 C12_LogUnlessRaced == pc = "gone" /\ ~raced => onDisk[attempt] = emitted[attempt]
 C12_NothingLostUnlessRaced == ~raced => lost = 0
+C12_NothingLost == lost = 0
 \* C11/C12: the step always finishes (no blocked child)
 Finishes == <>(pc = "gone")
 =============================================================================
